@@ -91,11 +91,16 @@ def run(ctx, chk):
     for row in m.rows:
         if row['adds']:
             passed = [a for a, ok in row['atoms'] if a == 'segsize>=%d' % full and ok]
-            off = row['adds'][0]['args'][1]
-            chk.ob('C16.V3', 'open:record-pointer-after-size-test', bool(passed), row['adds'][0]['site'][2],
-                   'pointer advanced by %s bytes on a path where the header+record size test %s' % (fmt(off), 'passed' if passed else 'WAS NOT MADE'))
-            chk.ob('C16.V3', 'open:record-offset-is-header-size', arith.const_num(off) == H, row['adds'][0]['site'][2],
-                   'record pointer offset %s (header is %d bytes)' % (fmt(off), H))
+            # the advance that reaches the record: the largest one on the path (field pointers inside the header are smaller)
+            dists = [(common.ptr_advance_bytes(fb, e_), e_) for e_ in row['adds']]
+            known = [(d_, e_) for d_, e_ in dists if d_ is not None]
+            off, ef_ = max(known, key=lambda x: x[0]) if known else (None, row['adds'][0])
+            if off is not None and off < H and all(d_ is not None for d_, _ in dists):
+                continue            # only pointers into the header are formed on this path
+            chk.ob('C16.V3', 'open:record-pointer-after-size-test', bool(passed), ef_['site'][2],
+                   'pointer advanced by %s bytes on a path where the header+record size test %s' % (off, 'passed' if passed else 'WAS NOT MADE'))
+            chk.ob('C16.V3', 'open:record-offset-is-header-size', off == H, ef_['site'][2],
+                   'record pointer offset %s (header is %d bytes)' % (off, H))
     # ---- magic constant
     magic = fb.const('::SHM_MAGIC')
     if magic and 'bytes' in magic:
